@@ -301,7 +301,8 @@ def _mk(fn, *a):
 
 
 F = lambda rel, *q: [(rel, x) for x in q]
-SHAPES = [(m, n) for m in (1, 2, 3) for n in (1, 2, 3, 4) if n <= m + 1]
+# every length is covered by contracts/c12_anylen.py (deductive); these small instances run the same code on concrete lists (cross-check)
+SHAPES = [(1, 2), (2, 2), (2, 3)]
 
 SCENARIOS = (
     [Scenario(f"C12.autocast.cast_inputs[m={m},n={n}]", _mk(s_cast_inputs, m, n), F(AUTOCAST, "cast_inputs"),
